@@ -17,22 +17,162 @@ Proof.
     destruct x as [|[p|p|]]; intros H; injection H as <- <-; reflexivity.
 Qed.
 
+(* ---- bytes_ltb is a strict order; sorted association lists are kept as they are ------- *)
+Lemma bytes_ltb_irrefl a : bytes_ltb a a = false.
+Proof. induction a as [|x a IH]; [reflexivity|]. cbn [bytes_ltb]. rewrite N.ltb_irrefl. exact IH. Qed.
+
+Lemma bytes_ltb_asym a : forall b, bytes_ltb a b = true -> bytes_ltb b a = false.
+Proof.
+  induction a as [|x a IH]; intros [|y b]; cbn [bytes_ltb]; try discriminate; try reflexivity.
+  destruct (x <? y) eqn:E1, (y <? x) eqn:E2; try lia; try reflexivity; try discriminate.
+  apply IH.
+Qed.
+
+Lemma bytes_ltb_trans a : forall b c, bytes_ltb a b = true -> bytes_ltb b c = true -> bytes_ltb a c = true.
+Proof.
+  induction a as [|x a IH]; intros [|y b] [|z c]; cbn [bytes_ltb]; try discriminate; try reflexivity.
+  destruct (x <? y) eqn:E1, (y <? x) eqn:E2, (y <? z) eqn:E3, (z <? y) eqn:E4,
+           (x <? z) eqn:E5, (z <? x) eqn:E6; try lia; try reflexivity; try discriminate.
+  apply IH.
+Qed.
+
+Fixpoint keys_below {A} (l : list (bytes * A)) (k : bytes) : bool :=
+  match l with [] => true | (k', _) :: r => bytes_ltb k' k && keys_below r k end.
+
+Lemma kv_insert_above {A} (k : bytes) (x : A) l :
+  keys_below l k = true -> kv_insert k x l = l ++ [(k, x)].
+Proof.
+  induction l as [|[k' y] r IH]; [reflexivity|]. cbn [keys_below kv_insert app].
+  intros H. apply andb_prop in H as [H1 H2]. rewrite (bytes_ltb_asym _ _ H1), H1. now rewrite IH.
+Qed.
+
+Lemma sorted_strict_cons a r : sorted_strict (a :: r) = true ->
+  sorted_strict r = true /\ (forall k, In k r -> bytes_ltb a k = true).
+Proof.
+  revert a. induction r as [|b r IH]; intros a H; [split; [reflexivity|intros k []]|].
+  cbn [sorted_strict] in H. apply andb_prop in H as [Hab Hr]. split; [exact Hr|].
+  intros k [->|Hk]; [assumption|].
+  destruct (IH b Hr) as [_ Hb]. eapply bytes_ltb_trans; [exact Hab|now apply Hb].
+Qed.
+
+Lemma kv_of_sorted_aux {A} (l : list (bytes * A)) : forall acc : list (bytes * A),
+  sorted_strict (map fst l) = true ->
+  (forall k, In k (map fst l) -> keys_below acc k = true) ->
+  fold_left (fun a kx => kv_insert (fst kx) (snd kx) a) l acc = acc ++ l.
+Proof.
+  induction l as [|[a x] r IH]; intros acc Hs Hb; [cbn; now rewrite app_nil_r|].
+  cbn [map fst] in Hs, Hb. cbn [fold_left fst snd].
+  rewrite kv_insert_above by (apply Hb; now left).
+  destruct (sorted_strict_cons _ _ Hs) as [Hr Ha].
+  rewrite IH; [now rewrite <- app_assoc| assumption |].
+  intros k Hk. specialize (Ha k Hk).
+  assert (Hacc : keys_below acc k = true).
+  { specialize (Hb a (or_introl eq_refl)). clear -Hb Ha.
+    induction acc as [|[k' y] acc IHa]; [reflexivity|]. cbn [keys_below] in *.
+    apply andb_prop in Hb as [H1 H2]. rewrite (bytes_ltb_trans _ _ _ H1 Ha). now apply IHa. }
+  clear -Hacc Ha. induction acc as [|[k' y] acc IHa]; cbn [app keys_below] in *.
+  - now rewrite Ha.
+  - apply andb_prop in Hacc as [H1 H2]. rewrite H1. now apply IHa.
+Qed.
+
+Lemma kv_of_sorted {A} (l : list (bytes * A)) :
+  sorted_strict (map fst l) = true -> kv_of_list l = l.
+Proof. intros H. unfold kv_of_list. now rewrite kv_of_sorted_aux. Qed.
+
+(* ---- ValidatorIndex ---------------------------------------------------------------------- *)
+Lemma map_opt_as_bytes l bs : map_opt as_bytes l = Some bs -> l = map VBytes bs.
+Proof.
+  revert bs. induction l as [|v l IH]; intros bs H.
+  - injection H as <-. reflexivity.
+  - rewrite map_opt_cons in H. destruct v as [| |b| |]; try discriminate. cbn [as_bytes] in H.
+    destruct (map_opt as_bytes l) as [bs'|]; [|discriminate]. injection H as <-.
+    cbn [map]. f_equal. now apply IH.
+Qed.
+Lemma map_opt_as_bytes_map bs : map_opt as_bytes (map VBytes bs) = Some bs.
+Proof.
+  induction bs as [|a r IH]; [reflexivity|]. cbn [map]. rewrite map_opt_cons. cbn [as_bytes].
+  now rewrite IH.
+Qed.
+
+Lemma set_norm_sorted (bs : list bytes) : sorted_strict bs = true ->
+  set_norm (map VBytes bs) = Some (map VBytes bs).
+Proof.
+  intros Hs. unfold set_norm. rewrite map_opt_as_bytes_map, kv_of_sorted.
+  - f_equal. rewrite map_map. reflexivity.
+  - rewrite map_map. cbn [fst]. now rewrite map_id.
+Qed.
+
+(* what the decoder accepts is exactly what the encoder writes for it *)
+Lemma set_dec_canon l l' : set_dec l = Some l' -> l' = l /\ set_norm l = Some l.
+Proof.
+  unfold set_dec. destruct (map_opt as_bytes l) as [bs|] eqn:E; [|discriminate].
+  destruct (sorted_strict bs) eqn:Hs; [|discriminate]. intros H; injection H as <-.
+  split; [reflexivity|]. rewrite (map_opt_as_bytes _ _ E). now apply set_norm_sorted.
+Qed.
+
+(* an address list that is not strictly increasing is rejected *)
+Lemma validator_index_unsorted_rejected bs : sorted_strict bs = false ->
+  cdec id_ValidatorIndex (VList (map VBytes bs)) = None.
+Proof. intros H. cbn. unfold set_dec. now rewrite map_opt_as_bytes_map, H. Qed.
+
+(* ---- Validator ---------------------------------------------------------------------------- *)
+Lemma validator_expelled_rejected a e : 2 <= e -> cdec id_Validator (VList [a; VNum e]) = None.
+Proof. intros H. cbn. destruct (1 <? e) eqn:E; [reflexivity|lia]. Qed.
+
+Lemma validator_canon a e v : cdec id_Validator (VList [a; VNum e]) = Some v ->
+  cenc id_Validator v = Some (VList [a; VNum e]).
+Proof.
+  cbn. destruct (1 <? e) eqn:E; [discriminate|]. intros H; injection H as <-. cbn.
+  destruct (e =? 1) eqn:E1.
+  - apply N.eqb_eq in E1. now subst.
+  - assert (e = 0) by lia. now subst.
+Qed.
+
+(* ---- EvidenceDoubleSign: entries sorted by hash are kept as they are --------------------- *)
+Lemma map_opt_as_sign l kvs : map_opt as_sign l = Some kvs -> l = map sign_value kvs.
+Proof.
+  revert kvs. induction l as [|v l IH]; intros kvs H.
+  - injection H as <-. reflexivity.
+  - rewrite map_opt_cons in H. destruct (as_sign v) as [[h s]|] eqn:Ev; [|discriminate].
+    destruct (map_opt as_sign l) as [kvs'|]; [|discriminate]. injection H as <-.
+    cbn [map]. f_equal; [|now apply IH].
+    unfold as_sign in Ev.
+    destruct v as [| | |[|[| |h'| |] [|[| |s'| |] [|? ?]]]|]; try discriminate.
+    destruct (len h' =? 32); [|discriminate]. injection Ev as <- <-. reflexivity.
+Qed.
+
+Lemma evidence_sorted_canonical r i signs kvs :
+  map_opt as_sign signs = Some kvs -> sorted_strict (map fst kvs) = true ->
+  cdec id_EvidenceDoubleSign (VList [r; i; VList signs]) = Some (VList [r; i; VList signs]) /\
+  cenc id_EvidenceDoubleSign (VList [r; i; VList signs]) = Some (VList [r; i; VList signs]).
+Proof.
+  intros Hm Hs. cbn. unfold signs_dec, signs_norm. rewrite Hm, (kv_of_sorted _ Hs), N.eqb_refl.
+  cbn [option_map]. now rewrite <- (map_opt_as_sign _ _ Hm).
+Qed.
+
 (* ---- customs that give back exactly what they read ----------------------------------- *)
-Definition normalising (id : N) : bool :=
-  (id =? id_Validator) || (id =? id_ValidatorIndex) || (id =? id_EvidenceDoubleSign).
+Definition normalising (id : N) : bool := id =? id_EvidenceDoubleSign.
 
 Lemma custom_canon id wv v : normalising id = false -> cdec id wv = Some v -> cenc id v = Some wv.
 Proof.
-  unfold normalising, cdec, cenc, id_Receipt, id_ReceiptForStorage, id_Validator, id_ValidatorIndex,
-    id_EvidenceDoubleSign.
-  intros Hn.
+  intros Hn Hd. unfold normalising, id_EvidenceDoubleSign in Hn.
+  destruct (id =? id_Validator) eqn:E7.
+  { apply N.eqb_eq in E7. subst id.
+    change (cdec id_Validator wv = Some v) in Hd.
+    assert (exists a e, wv = VList [a; VNum e]) as (a & e & ->).
+    { cbn in Hd. destruct wv as [| | |[|a [|[e| | | |] [|? ?]]]|]; try discriminate. eauto. }
+    now apply validator_canon. }
+  destruct (id =? id_ValidatorIndex) eqn:E11.
+  { apply N.eqb_eq in E11. subst id. cbn in Hd. destruct wv as [| | |l|]; try discriminate.
+    destruct (set_dec l) as [l'|] eqn:Es; [|discriminate]. injection Hd as <-.
+    apply set_dec_canon in Es as [-> Hn']. cbn. now rewrite Hn'. }
+  revert Hd. unfold cdec, cenc, id_Receipt, id_ReceiptForStorage, id_Validator, id_ValidatorIndex,
+    id_EvidenceDoubleSign in *.
   destruct ((id =? 3) || (id =? 4)) eqn:E1.
   - destruct wv as [| | |[|[| |b| |] rest]|]; try discriminate.
     destruct (status_dec b) as [[ps st]|] eqn:Es; [|discriminate].
     intros H; injection H as <-. now rewrite (status_roundtrip _ _ _ Es).
-  - destruct (id =? 7) eqn:E2; [cbn in Hn; lia|].
-    destruct (id =? 11) eqn:E3; [cbn in Hn; lia|].
-    destruct (id =? 14) eqn:E4; [cbn in Hn; lia|].
+  - rewrite E7, E11, Hn.
     destruct ((1 <=? id) && (id <=? 16)); [|discriminate].
     intros H; injection H as <-. reflexivity.
 Qed.
@@ -59,7 +199,7 @@ Proof.
   - cbn [strict] in Hs. apply andb_prop in Hs as [Hn Hw]. cbn [lenient]. rewrite IH by assumption.
     cbn [orb]. destruct (of_item cdec w it) as [wv|]; [|reflexivity].
     destruct (cdec id wv) as [v|] eqn:Ed; [|reflexivity].
-    assert (Hn' : normalising id = false) by (unfold normalising; destruct ((id =? id_Validator) || (id =? id_ValidatorIndex) || (id =? id_EvidenceDoubleSign)); [discriminate|reflexivity]).
+    assert (Hn' : normalising id = false) by (unfold normalising; destruct (id =? id_EvidenceDoubleSign); [discriminate|reflexivity]).
     rewrite (custom_canon _ _ _ Hn' Ed). now rewrite value_eqb_refl.
 Qed.
 
@@ -70,98 +210,10 @@ Proof.
   unfold lenient_bytes. destruct (decode b); [|reflexivity]. now apply strict_not_lenient.
 Qed.
 
-(* ---- the finding classes, characterised -------------------------------------------------- *)
+(* ---- the remaining lenient places, characterised ------------------------------------------ *)
 (* rlp:"nil" pointer to a byte array: exactly the empty LIST is the extra form *)
 Lemma opt_arr_lenient n it : 1 <= n -> (lenient_t (SOpt (SArr n)) it = true <-> it = Lst []).
 Proof.
   intros Hn. unfold lenient_t. cbn [lenient]. destruct it as [[|x b]|[|x l]]; cbn [nil_item item_eqb bytes_eqb negb];
     split; try discriminate; try reflexivity.
 Qed.
-
-(* Validator: the wire byte of Expelled is lost unless it is 0 or 1 *)
-Lemma validator_lenient a e v : cdec id_Validator (VList [a; VNum e]) = Some v ->
-  (cenc id_Validator v = Some (VList [a; VNum e]) <-> e = 0 \/ e = 1).
-Proof.
-  cbn. intros H; injection H as <-. cbn. destruct (e =? 1) eqn:E.
-  - apply N.eqb_eq in E. subst e. split; [auto|reflexivity].
-  - apply N.eqb_neq in E. split.
-    + intros H. injection H as H. auto.
-    + intros [->|Hc]; [reflexivity|congruence].
-Qed.
-
-(* ---- bytes_ltb is a strict order; a strictly sorted address list is kept as is ---------- *)
-Lemma bytes_ltb_irrefl a : bytes_ltb a a = false.
-Proof. induction a as [|x a IH]; [reflexivity|]. cbn [bytes_ltb]. rewrite N.ltb_irrefl. exact IH. Qed.
-
-Lemma bytes_ltb_asym a : forall b, bytes_ltb a b = true -> bytes_ltb b a = false.
-Proof.
-  induction a as [|x a IH]; intros [|y b]; cbn [bytes_ltb]; try discriminate; try reflexivity.
-  destruct (x <? y) eqn:E1, (y <? x) eqn:E2; try lia; try reflexivity; try discriminate.
-  apply IH.
-Qed.
-
-Fixpoint keys_below {A} (l : list (bytes * A)) (k : bytes) : bool :=
-  match l with [] => true | (k', _) :: r => bytes_ltb k' k && keys_below r k end.
-
-Lemma kv_insert_above {A} (k : bytes) (x : A) l :
-  keys_below l k = true -> kv_insert k x l = l ++ [(k, x)].
-Proof.
-  induction l as [|[k' y] r IH]; [reflexivity|]. cbn [keys_below kv_insert app].
-  intros H. apply andb_prop in H as [H1 H2]. rewrite (bytes_ltb_asym _ _ H1), H1. now rewrite IH.
-Qed.
-
-Fixpoint sorted_strict (l : list bytes) : bool :=
-  match l with
-  | [] => true
-  | a :: r => match r with [] => true | b :: _ => bytes_ltb a b end && sorted_strict r
-  end.
-
-Lemma bytes_ltb_trans a : forall b c, bytes_ltb a b = true -> bytes_ltb b c = true -> bytes_ltb a c = true.
-Proof.
-  induction a as [|x a IH]; intros [|y b] [|z c]; cbn [bytes_ltb]; try discriminate; try reflexivity.
-  destruct (x <? y) eqn:E1, (y <? x) eqn:E2, (y <? z) eqn:E3, (z <? y) eqn:E4,
-           (x <? z) eqn:E5, (z <? x) eqn:E6; try lia; try reflexivity; try discriminate.
-  apply IH.
-Qed.
-
-Lemma kv_of_sorted_aux (l : list bytes) : forall acc : list (bytes * unit),
-  sorted_strict l = true ->
-  (forall k, In k l -> keys_below acc k = true) ->
-  fold_left (fun a kx => kv_insert (fst kx) (snd kx) a) (map (fun b => (b, tt)) l) acc
-  = acc ++ map (fun b => (b, tt)) l.
-Proof.
-  induction l as [|a r IH]; intros acc Hs Hb; [cbn; now rewrite app_nil_r|].
-  cbn [map fold_left fst snd]. rewrite kv_insert_above by (apply Hb; now left).
-  cbn [sorted_strict] in Hs. apply andb_prop in Hs as [Ha Hr].
-  rewrite IH; [now rewrite <- app_assoc| assumption |].
-  intros k Hk.
-  assert (Hak : bytes_ltb a k = true).
-  { clear -Ha Hr Hk. revert a Ha k Hk. induction r as [|b r IHr]; intros a Ha k Hk; [destruct Hk|].
-    destruct Hk as [->|Hk]; [assumption|].
-    cbn [sorted_strict] in Hr. apply andb_prop in Hr as [Hb Hr'].
-    eapply bytes_ltb_trans; [exact Ha|]. now apply IHr. }
-  assert (Hacc : keys_below acc k = true).
-  { specialize (Hb a (or_introl eq_refl)). clear -Hb Hak.
-    induction acc as [|[k' y] acc IHa]; [reflexivity|]. cbn [keys_below] in *.
-    apply andb_prop in Hb as [H1 H2]. rewrite (bytes_ltb_trans _ _ _ H1 Hak). now apply IHa. }
-  clear -Hacc Hak. induction acc as [|[k' y] acc IHa]; cbn [app keys_below] in *.
-  - now rewrite Hak.
-  - apply andb_prop in Hacc as [H1 H2]. rewrite H1. now apply IHa.
-Qed.
-
-Lemma set_norm_sorted (l : list bytes) : sorted_strict l = true ->
-  set_norm (map VBytes l) = Some (map VBytes l).
-Proof.
-  intros Hs. unfold set_norm.
-  assert (E : map_opt as_bytes (map VBytes l) = Some l).
-  { induction l as [|a r IH]; [reflexivity|]. cbn [map]. rewrite map_opt_cons. cbn [as_bytes].
-    rewrite IH; [reflexivity|]. cbn [sorted_strict] in Hs. now apply andb_prop in Hs as [_ Hs]. }
-  rewrite E. unfold kv_of_list. rewrite kv_of_sorted_aux; [|assumption|reflexivity].
-  cbn [app]. f_equal. rewrite map_map. reflexivity.
-Qed.
-
-(* a strictly increasing address list is the one wire form of its set *)
-Lemma validator_index_sorted_canonical (l : list bytes) : sorted_strict l = true ->
-  cdec id_ValidatorIndex (VList (map VBytes l)) = Some (VList (map VBytes l)) /\
-  cenc id_ValidatorIndex (VList (map VBytes l)) = Some (VList (map VBytes l)).
-Proof. intros Hs. cbn. now rewrite (set_norm_sorted _ Hs). Qed.
